@@ -509,7 +509,7 @@ func (w *World) Run() error {
 		}
 		w.step = si + 1
 		hh, bh := w.bc.HeaderHeight(), w.bc.BlockHeight()
-		ev := map[string]any{"event": "step", "step": w.step, "op": s.Op, "ok": true, "err": ""}
+		ev := map[string]any{"event": "step", "step": w.step, "op": s.Op, "ok": true, "err": "", "interrupted": false}
 		switch s.Op {
 		case "hdr":
 			to := min(uint32(max(0, s.To)), w.K.N())
@@ -585,6 +585,7 @@ func (w *World) Run() error {
 		if s.Op != "stop" && s.Op != "crash" {
 			// probes of the batches this operation wrote come BEFORE its step event
 			w.absorb(w.lookahead(si))
+			ev["interrupted"] = w.kept != nil
 		}
 		if ok, _ := ev["ok"].(bool); ok && alive {
 			o := w.obs(s.Op == "look")
@@ -599,7 +600,7 @@ func (w *World) Run() error {
 			// the reset node was not running: reopen it as the command line user would
 			w.step = si + 1
 			w.bc, errs = w.open(w.rec, true)
-			ev2 := map[string]any{"event": "step", "step": w.step, "op": "reopen", "ok": errs == "", "err": errs}
+			ev2 := map[string]any{"event": "step", "step": w.step, "op": "reopen", "ok": errs == "", "err": errs, "interrupted": w.kept != nil}
 			alive = errs == ""
 			if alive {
 				ev2["obs"] = w.obs(false)
